@@ -19,7 +19,7 @@ RULE = ('(a) a fixed battery plus seeded random strings over the XML Char range 
         'quick); for each accepted string: to_string must parse with xml.etree, the recovered text / attribute must equal '
         'the accepted string exactly, two calls must return identical text, and the element must serialise to the same '
         'content alone and inside a parent (indentation aside). (b) per element-content type: every <=2 additions with one '
-        'serialisation at every position (both flags), every <=1 addition + one other operation + serialisation, and seeded '
+        'serialisation at every position (both flags), every <=1 addition + one other operation + serialisation, every [addition, serialisation, one change of that child, serialisation], and seeded '
         'serialisation-heavy histories: replayed without the serialisation calls, every other result and the final '
         'text / verdict / acceptance vector must agree. non-trivial = accepted string (a) / history with a successful '
         'serialisation (b)')
@@ -178,11 +178,11 @@ def run_shard(shard, tier, seed):
     a = len(ref.DFAS[t].alphabet)
     if tier == 'quick':
         cores = [genhist.core_str_anywhere(t, 2 if a <= 6 else 1),
-                 genhist.with_final_str(genhist.core_mixed(t, 1, ('rm',)))]
+                 genhist.with_final_str(genhist.core_mixed(t, 1, ('rm',))), genhist.core_str_then_change(t)]
         halos = [('serialise', 40, 8)]
     else:
         cores = [genhist.core_str_anywhere(t, 3 if a <= 6 else 2),
-                 genhist.with_final_str(genhist.core_mixed(t, 1, ('rm', 'set', 'fwd')))]
+                 genhist.with_final_str(genhist.core_mixed(t, 1, ('rm', 'set', 'fwd'))), genhist.core_str_then_change(t)]
         halos = [('serialise', 1200, 12), ('mixed', 300, 12)]
     return _histcheck.run(shard, tier, seed, PROPERTY, cores, halos, PROPS, shrink_per_presig=3)
 
